@@ -24,7 +24,7 @@ func init() {
 	}
 	Register(&Spec{
 		ID:          "C04",
-		Explanation: "Decides three necessary conditions of write/read-back agreement: (R1) for every width the struct getter and setter and every typed list At/Set pair use the same guard with the same size and the segment accessor of that same width (table of 4+1 struct pairs and 11 list pairs, compared with the schema width table), and the setters have their confirmed normal forms; (R2) alloc is the only function that lengthens a segment, hands out the old length as the address of the new object, extends by the padded size under a checked address computation and zero-fills the new region; (R3) the four framers agree on the header: size from streamHeaderSize, segment count minus one in word 0, each segment's length in words at 4+4i, and readers take exactly those fields. The zero fill of alloc must lie on every path to a success return. Does NOT decide round-trip equality, non-interference between fields or independence of chunking.",
+		Explanation: "Decides three necessary conditions of write/read-back agreement: (R1) for every width the struct getter and setter and every typed list At/Set pair use the same guard with the same size and the segment accessor of that same width (table of 4+1 struct pairs and 11 list pairs, compared with the schema width table), and the setters have their confirmed normal forms; (R2) alloc is the only function that lengthens a segment, hands out the old length as the address of the new object, extends by the padded size under a checked address computation and zero-fills the new region; (R3) the four framers agree on the header: size from streamHeaderSize, segment count minus one in word 0, each segment's length in words at 4+4i, and readers take exactly those fields. The zero fill of alloc must lie on every path to a success return. (R2s) a window obtained from Segment.slice is not used after a call that can allocate (the arena may have replaced the backing array). (R5, R5c, R5p, R5s) the landing-pad lemmas of writePtr, the composite tag address, the pairing of an allocated address with its segment and the capacity cap of decoded segments (shared with C05-R3/R3c/R4 and C14-R4: a value can only be read back through a well-formed pointer and from storage no other object overlaps). Does NOT decide round-trip equality, non-interference between fields or independence of chunking.",
 		Run:         runC04,
 	})
 }
@@ -44,6 +44,7 @@ var listPairs = []listPair{
 }
 
 func runC04(ctx *Ctx) {
+	ruleNoSliceAcrossAlloc(ctx, "C04-R2s")
 	ruleAccessorSymmetry(ctx, "C04-R1")
 	if ctx.Primary {
 		ruleKernelLemmas(ctx, "C04-R1n", []string{
@@ -53,6 +54,14 @@ func runC04(ctx *Ctx) {
 	}
 	ruleAllocLemma(ctx, "C04-R2")
 	ruleAnchorSpecs(ctx, "C04-R3", framingSpecs)
+	// what is written can only be read back if the pointer that leads to it
+	// is well formed and if objects do not overlap: the landing-pad lemmas and
+	// the allocation pairing of C05, the zero-capacity tail of decoded segments
+	// of C14, under this property's id
+	ruleAnchorSpecs(ctx, "C04-R5", writePtrSpecs)
+	ruleCompositeTagAddress(ctx, "C04-R5c")
+	ruleAllocPairing(ctx, "C04-R5p", "capnp")
+	ruleCappedSlices(ctx, "C04-R5s")
 	r := ctx.Rep
 	r.Floor("C04-R1", 25)
 	r.Floor("C04-R2", 5)
@@ -210,40 +219,15 @@ func ruleAllocLemma(ctx *Ctx, rule string) {
 						extendOK = true
 					}
 				}
-				if ia, ok := x.Addr.(*ssa.IndexAddr); ok {
-					if k, isC := ssaq.ConstInt(x.Val); isC && k == 0 {
-						if s := ssaq.RenderValue(f, ia.X); s == "phi.data[len(phi.data):addSize(address(len(phi.data)), padToWord(p1))#0]" {
-							// ... on every path to the success return: the only conditions the
-							// store may depend on, beyond those of the success return itself,
-							// are the loop's own bound tests
-							zeroOK = true
-							for _, b2 := range f.Blocks {
-								rt, ok := b2.Instrs[len(b2.Instrs)-1].(*ssa.Return)
-								if !ok || len(rt.Results) != 3 || !ssaq.IsNilConst(rt.Results[2]) {
-									continue
-								}
-								// each success return separately: an early success return skips the loop
-								retAtoms := map[string]bool{}
-								for _, a := range ssaq.DomAtoms(rt) {
-									retAtoms[a] = true
-								}
-								for _, a := range ssaq.DomAtoms(x) {
-									if !retAtoms[a] && !strings.Contains(a, "< len(") {
-										zeroOK = false
-										zeroCond = a
-									}
-								}
-							}
-						}
-					}
-				}
 			}
 		}
 	}
+	// (d) on values, not on renderings: see allocZeroFill
+	zeroOK, zeroCond = allocZeroFill(q, f)
 	report(capOK, "uses the preferred segment only if it has capacity for the padded size", "hasCapacity(s.data, sz.padToWord()) decides between s and a new segment", "alloc no longer tests the capacity of the preferred segment for the padded size: the extension could exceed the capacity (panic) or spill into bytes the arena did not hand out")
 	report(retOK, "returns the old length as the object's address", "addr = address(len(s.data)) read before the extension", "the address returned is not the segment's old length: the new object overlaps existing ones")
 	report(extendOK, "extends the segment exactly to the new end", "s.data = s.data[:end]", "the segment is not extended to the computed end")
-	report(zeroOK, "zero-fills the new region", "every byte of s.data[len:end] is set to 0", "the newly handed-out region is not zeroed on every path (extra condition: "+zeroCond+"): recycled arena memory shows through as field values and as non-null pointers")
+	report(zeroOK, "zero-fills the new region", "every byte of s.data[len:end] is set to 0", "the newly handed-out region is not zeroed on every path ("+zeroCond+"): recycled arena memory shows through as field values and as non-null pointers")
 }
 
 var framingSpecs = []anchorSpec{
